@@ -60,6 +60,11 @@ var c06Funcs = []string{"lower", "upper", "int", "float", "str", "is_int", "is_f
 var c06Hostile = func() []string {
 	h := []string{
 		"select upper(u) as u where key = 'a'",
+		"select key, value where true order by value, value desc",
+		"select key, strlen(value) as n where true order by n desc, n, key",
+		"select value, count(1) as c where true group by value order by c, c desc limit 3",
+		"select * where key ^= '' & key ^= 'k'",
+		"select * where key ^= 'k' | key ^= ''",
 		"select a + 1 as b, b + 1 as a where a > 1",
 		"select upper(x) as x, lower(x) as y where y = 'a'",
 		"select key, int(value) as n where n > n",
